@@ -5,6 +5,7 @@ import (
 	"go/token"
 	"go/types"
 	"regexp/syntax"
+	"strconv"
 	"strings"
 
 	"golang.org/x/tools/go/ssa"
@@ -180,6 +181,29 @@ func ruleDeclaredSizes(p *Prog, r *Report) {
 	}
 	if fn := p.MustFunc(r, "ast", "(*ASCIINode).String"); fn != nil {
 		key := rule + ":ast.(*ASCIINode).String:bounds"
+		// by evaluation first: a variable with concrete bounds must print the
+		// size form the reader takes for exactly those bounds
+		evaluated := true
+		var wrong []string
+		for _, c := range []struct {
+			min, max int64
+			want     string
+		}{{0, -1, "<A VAR>"}, {3, 3, "<A[3] VAR>"}, {2, -1, "<A[2..] VAR>"}, {2, 5, "<A[2..5] VAR>"}, {0, 5, "<A[0..5] VAR>"}, {7, 300, "<A[7..300] VAR>"}} {
+			ie := NewInterp(p)
+			ie.PathBind["p0.isValue"] = boolVal(false)
+			ie.PathBind["p0.variable.name"] = strVal("VAR")
+			ie.PathBind["p0.variable.minLength"] = int64Val(c.min)
+			ie.PathBind["p0.variable.maxLength"] = int64Val(c.max)
+			out := ie.Run(fn, defaultArgs(fn), nil)
+			rets := out.Frame.ReturnVals()
+			if len(ie.Stuck) > 0 || len(rets) != 1 || rets[0][0].K != KStr || out.CanPanic {
+				evaluated = false
+				break
+			}
+			if rets[0][0].S != c.want {
+				wrong = append(wrong, fmt.Sprintf("a variable with bounds (%d, %d) prints %s, the SML form is %s", c.min, c.max, rets[0][0].S, c.want))
+			}
+		}
 		in := symInterp(p)
 		in.PathBind["p0.isValue"] = boolVal(false)
 		var bad []string
@@ -217,8 +241,14 @@ func ruleDeclaredSizes(p *Prog, r *Report) {
 				}
 			}
 		}
-		in.Run(fn, defaultArgs(fn), nil)
+		if !evaluated {
+			in.Run(fn, defaultArgs(fn), nil)
+		}
 		switch {
+		case evaluated && len(wrong) > 0:
+			r.bad(rule, key, p.Pos(fn.Pos()), "the bounds of an ASCII variable are not printed as the reader takes them: "+strings.Join(firstN(wrong, 3), "; "))
+		case evaluated:
+			r.ok(rule, key, p.Pos(fn.Pos()), "evaluated on six pairs of bounds the printer yields no size, [n], [min..] and [min..max] exactly as the reader takes them")
 		case len(bad) > 0:
 			r.bad(rule, key, p.Pos(fn.Pos()), "the bounds of an ASCII variable are printed in the wrong order: "+strings.Join(bad, "; "))
 		case n < 3:
@@ -569,7 +599,13 @@ func ruleQuoteAlphabet(p *Prog, r *Report) {
 	// (a) characters written verbatim
 	sites := stringRangeSites(fn)
 	key := rule + ":ast.(*ASCIINode).String:verbatim-set"
-	if len(sites) != 1 {
+	if d, decided, good := asciiPrintsReadable(p, fn); decided {
+		if good {
+			r.ok(rule, key, pos, d)
+		} else {
+			r.bad(rule, key, pos, d)
+		}
+	} else if len(sites) != 1 {
 		r.unk(rule, key, pos, "the printer does not walk the value rune by rune: which characters it quotes cannot be determined")
 	} else {
 		site := sites[0]
@@ -765,4 +801,83 @@ func guardedAgainstQuote(use ssa.Instruction, value ssa.Value) bool {
 		}
 	}
 	return false
+}
+
+// readSMLASCII reads the text of an ASCII item the way the SML reader does
+// (R10, R23 c/d decide that the lexer and parser follow these rules): after
+// "<A" and an optional size, quoted runs that end at the next double quote and
+// hold no line break, and number tokens that are character codes up to 127.
+func readSMLASCII(text string) (string, bool) {
+	if !strings.HasPrefix(text, "<A") || !strings.HasSuffix(text, ">") {
+		return "", false
+	}
+	body := text[2 : len(text)-1]
+	if strings.HasPrefix(body, "[") {
+		i := strings.Index(body, "]")
+		if i < 0 {
+			return "", false
+		}
+		body = body[i+1:]
+	}
+	var out []byte
+	for len(body) > 0 {
+		switch c := body[0]; {
+		case c == ' ' || c == '\t' || c == '\r' || c == '\n':
+			body = body[1:]
+		case c == '"':
+			i := strings.IndexByte(body[1:], '"')
+			if i < 0 || strings.ContainsAny(body[1:1+i], "\r\n") {
+				return "", false
+			}
+			out = append(out, body[1:1+i]...)
+			body = body[i+2:]
+		case c >= '0' && c <= '9':
+			j := 0
+			for j < len(body) && (body[j] >= '0' && body[j] <= '9' || body[j] >= 'a' && body[j] <= 'z' || body[j] >= 'A' && body[j] <= 'Z') {
+				j++
+			}
+			n, err := strconv.ParseUint(body[:j], 0, 0)
+			if err != nil || n > 127 {
+				return "", false
+			}
+			out = append(out, byte(n))
+			body = body[j:]
+		default:
+			return "", false
+		}
+	}
+	return string(out), true
+}
+
+// asciiPrintsReadable evaluates the printer on every single ASCII character
+// and on some mixed strings and reads the result back with readSMLASCII.
+// decided is false when the evaluation does not yield constant strings.
+func asciiPrintsReadable(p *Prog, fn *ssa.Function) (detail string, decided, good bool) {
+	var values []string
+	for c := 0; c < 128; c++ {
+		values = append(values, string(rune(c)))
+	}
+	values = append(values, `a"b`, "ab\ncd", `""`, "a b", "\x00\x7f", `x"`, `"x`, "tab\there", "\r\n", "a\"\"b", "~}|{")
+	var bad []string
+	for _, v := range values {
+		in := NewInterp(p)
+		in.PathBind["p0.isValue"] = boolVal(true)
+		in.PathBind["p0.value"] = strVal(v)
+		out := in.Run(fn, defaultArgs(fn), nil)
+		rets := out.Frame.ReturnVals()
+		if len(in.Stuck) > 0 || len(rets) != 1 || rets[0][0].K != KStr || out.CanPanic {
+			return "", false, false
+		}
+		back, ok := readSMLASCII(rets[0][0].S)
+		switch {
+		case !ok:
+			bad = append(bad, fmt.Sprintf("%q is printed as %s, which the SML reader cannot read", v, rets[0][0].S))
+		case back != v:
+			bad = append(bad, fmt.Sprintf("%q is printed as %s, which reads back as %q", v, rets[0][0].S, back))
+		}
+	}
+	if len(bad) > 0 {
+		return strings.Join(firstN(bad, 4), "; "), true, false
+	}
+	return fmt.Sprintf("evaluated on each of the 128 ASCII characters and %d mixed strings, the printed text read by the SML rules (quoted runs ending at the next '\"' without line breaks, number codes) gives back the value", len(values)-128), true, true
 }
